@@ -1,4 +1,5 @@
 import PeliteModel.Lemmas.Cross
+import PeliteModel.Thm.C06
 /-!
 C03 — termination and work bounds.  Every model function is total in Lean (structural or
 well-founded recursion, whose termination proofs the kernel checked), so what remains to state are
@@ -138,5 +139,88 @@ example : (1 ≤ (⟨3, 3, false⟩ : Strings.Config).minLen ∧ 1 ≤ (⟨3, 3,
     Strings.enumAll #[0x1f, 0x43, 0x2d, 0x53, 0x54, 0x00, 0x80, 0x41, 0x41, 0x41, 0xff] ⟨3, 3, false⟩ 13 0 =
       .ok [⟨1, 4, true⟩, ⟨7, 3, false⟩] := by
   decide +kernel
+
+/-! ### second audit round -/
+
+/-- the loop of `derva_slice_f` / `deref_slice_f` driven by a STATEFUL callable (`F: FnMut`; `stop i x` is the
+answer of call `i`): fuel `window + 2` is never exhausted, whatever the callable does -/
+theorem C03_slice_fi (v : View) (a : Addr) (size align : Nat) (stop : Nat → Nat → Bool) (hs : 1 ≤ size) :
+    v.dervaSliceFI a size align stop ≠ .diverge := by
+  unfold View.dervaSliceFI
+  cases hat : v.at a 0 align with
+  | ok s =>
+    dsimp only
+    have := sliceFLoopI_ne_diverge (b := v.b) (off := s.off) (blen := s.len) (stop := stop) hs (s.len + 2) 0
+      (by omega) (by omega)
+    cases hL : sliceFLoopI v.b s.off s.len size stop (s.len + 2) 0 with
+    | diverge => exact absurd hL this
+    | _ => intro h; cases h
+  | diverge => exact absurd hat (v.at_ne_diverge a 0 align)
+  | _ => intro h; cases h
+
+/-- … and it makes at most `window / size + 1` calls: the callable is called once per loop iteration -/
+theorem C03_slice_fi_iterations (b : Bytes) (off blen size : Nat) (stop : Nat → Nat → Bool) (hs : 1 ≤ size) :
+    sliceFLoopI b off blen size stop (blen / size + 1) 0 ≠ .diverge := by
+  have key : ∀ (fuel len : Nat), 1 ≤ fuel → blen < (fuel + len) * size →
+      sliceFLoopI b off blen size stop fuel len ≠ .diverge := by
+    intro fuel
+    induction fuel with
+    | zero => intro len h; omega
+    | succ fuel ih =>
+      intro len _ h
+      rw [sliceFLoopI_succ]
+      by_cases hb : len * size + size > blen
+      · rw [if_pos hb]; intro h'; cases h'
+      · rw [if_neg hb]
+        by_cases hst : stop len (leN b (off + len * size) size) = true
+        · rw [if_pos hst]; intro h'; cases h'
+        · rw [if_neg hst]
+          have e : fuel + 1 + len = fuel + (len + 1) := by omega
+          rw [e] at h
+          rcases Nat.eq_zero_or_pos fuel with h0 | h0
+          · subst h0
+            rw [Nat.zero_add, Nat.succ_mul] at h
+            omega
+          · exact ih (len + 1) h0 h
+  apply key (blen / size + 1) 0 (Nat.le_add_left 1 _)
+  have := Nat.lt_div_mul_add (a := blen) (b := size) hs
+  rw [Nat.add_zero, Nat.succ_mul]
+  exact this
+
+/-- a 226-byte PE32 file (`tinyPe`, Lemmas/Convert.lean) whose SizeOfImage field is `0xffffffff` -/
+def hugeImg : Img := ⟨(((tinyPe 2 255).set! 145 255).set! 146 255).set! 147 255, 0⟩
+def hugeFile : View := ⟨hugeImg, .pe32, .file, imageBaseField .pe32 hugeImg.bytes⟩
+/-- the 256-byte PE32+ file `demo64Img` with SizeOfImage `0xffffffff` -/
+def huge64Img : Img := ⟨(((demo64Img.bytes.set! 144 255).set! 145 255).set! 146 255).set! 147 255, 0⟩
+def huge64File : View := ⟨huge64Img, .pe64, .file, imageBaseField .pe64 huge64Img.bytes⟩
+
+/-- **Scope of C03: the conversions do work proportional to the DECLARED image size, not to the input.**
+`validate_headers` bounds `SizeOfHeaders` by the buffer and by `SizeOfImage`, but `SizeOfImage` itself by
+nothing (`C07_validate_ok_iff`).  `PeFile::to_view` allocates and zero-fills `vec![0u8; SizeOfImage]`
+(file.rs:52; `C06_to_view_size`: the result has exactly `SizeOfImage` bytes for EVERY accepted file), so an
+accepted file of 226 bytes (PE32) or 256 bytes (PE32+) makes it produce `2^32 - 1` bytes.  The work of
+the parsing entry points of C03 (constructors, lookups, scans) is bounded by the input length; that of
+`to_view` — and of `to_file`, whose result is at most `SizeOfImage` long, the buffer of a mapped image —
+by the declared size.  (Stated from the size theorem; nothing here evaluates the 4 GiB buffer.) -/
+theorem C03_to_view_size_unbounded :
+    (hugeImg.bytes.size = 226 ∧ fromBytes .pe32 .file hugeImg = .ok hugeFile ∧ hugeFile.secs.length = 1 ∧
+      hugeFile.toView.size = 4294967295) ∧
+    (huge64Img.bytes.size = 256 ∧ fromBytes .pe64 .file huge64Img = .ok huge64File ∧ huge64File.secs.length = 1 ∧
+      huge64File.toView.size = 4294967295) := by
+  have h1 : fromBytes .pe32 .file hugeImg = .ok hugeFile :=
+    (fromBytes_ok_iff _ _ _ _).2 ⟨by decide +kernel, rfl⟩
+  have h2 : fromBytes .pe64 .file huge64Img = .ok huge64File :=
+    (fromBytes_ok_iff _ _ _ _).2 ⟨by decide +kernel, rfl⟩
+  refine ⟨⟨by decide +kernel, h1, by decide +kernel, ?_⟩, ⟨by decide +kernel, h2, by decide +kernel, ?_⟩⟩
+  · rw [C06_to_view_size .pe32 hugeImg hugeFile h1]
+    decide +kernel
+  · rw [C06_to_view_size .pe64 huge64Img huge64File h2]
+    decide +kernel
+
+/-- in general: the size of the conversion result is the declared one, for every accepted file, and every
+value of the field is possible above `SizeOfHeaders` -/
+theorem C03_to_view_work_is_declared_size (f : Fmt) (img : Img) (v : View) (hv : fromBytes f .file img = .ok v) :
+    v.toView.size = sizeOfImage v.b ∧ sizeOfImage v.b < 4294967296 :=
+  ⟨C06_to_view_size f img v hv, le32_lt _ _⟩
 
 end Pelite.Pe
